@@ -329,6 +329,10 @@ def run(ctx):
         rp = ctx.rng("posc")
         for h in range(25):
             history_posc(ctx, rp, 80)
+    # thorough tier: the repository's own tests as a workload under the global monitors (vp/suite_workload.py)
+    from .. import suite_workload
+
+    suite_workload.run(ctx, "C15")
     ctx.inconclusive_if(ctx.counters.get("registrations accepted", 0) == 0 or ctx.counters.get("query outcome ok", 0) < 100, "too few accepted registrations or successful queries")
 
 
